@@ -84,7 +84,10 @@ def _hi_configs(tier):
     for c in crops(tier):
         for phase in ("flowering", "late"):
             for frac in ((0.5, 1.0) if tier == "quick" else (0.05, 0.3, 0.6, 0.9, 1.0)):
-                out.append((f"{c}|{phase}|hi_ref={frac}*HI0", dict(crop=c, phase=phase, frac=frac)))
+                for fpol in ("one", "sym"):
+                    if fpol == "sym" and frac != 1.0:
+                        continue
+                    out.append((f"{c}|{phase}|hi_ref={frac}*HI0|f_pol={fpol}", dict(crop=c, phase=phase, frac=frac, fpol=fpol)))
     return out
 
 
@@ -112,7 +115,9 @@ def h_hi(ctx, cfg):
     ic.yield_form = ctx.bool("yield_form")
     ic.pre_adj = ctx.bool("pre_adj")
     ic.f_pre = ctx.real("f_pre", 0, 1 + max(float(crop.dHI_pre), 0) / 100)
-    ic.f_pol = ctx.real("f_pol", 0, 1)
+    # f_pol = 1 (pollination complete): HImax = HI0 is concrete and the cap clause is linear. With f_pol symbolic the branch
+    # HIadj = HImult*HImax multiplies two symbolic factors; the cap clause is not claimed there (DESIGN.md C05)
+    ic.f_pol = 1.0 if cfg["fpol"] == "one" else ctx.real("f_pol", 0, 1)
     ic.f_post = ctx.real("f_post", 0, 10)
     ic.fpost_upp = ctx.real("fpost_upp", 0, 10); ic.fpost_dwn = ctx.real("fpost_dwn", 0, 10)
     ic.s_cor1 = ctx.real("s_cor1", 0, 50); ic.s_cor2 = ctx.real("s_cor2", 0, 50)
@@ -131,7 +136,8 @@ def h_hi(ctx, cfg):
         nc = MHI.harvest_index(prof, 0.1, crop, ic, et0, tmax, tmin, True)
     ctx.out("harvest_index", nc.harvest_index); ctx.out("harvest_index_adj", nc.harvest_index_adj)
     ctx.prove("C05:harvest index never decreases and never exceeds the reference HI0", And(nc.harvest_index >= hi_prev - 1e-12, nc.harvest_index <= hi0 + 1e-12))
-    ctx.prove("C05:adjusted harvest index <= HI0*(1+dHI0/100)", nc.harvest_index_adj <= cap + 1e-9)
+    if cfg["fpol"] == "one":
+        ctx.prove("C05:adjusted harvest index <= HI0*(1+dHI0/100)", nc.harvest_index_adj <= cap + 1e-9)
     ctx.prove("C05:pollination factor stays in [0,1]", And(nc.f_pol >= 0, nc.f_pol <= 1))
     if ctx.feasible(nc.harvest_index_adj > 0.001):
         ctx.reach("adjusted-index-computed")
